@@ -24,7 +24,7 @@ ASSUMPTIONS = ['attribute assignment on AttributesFrozendict does not change the
                'specs whose non-callable default violates the port itself are rejected at definition time and skipped',
                'reference model written from the statement and documentation']
 REQUIRED = ['constructed', 'accepted', 'rejected', 'defaults_populated', 'callable_defaults', 'populate_defaults_false', 'dynamic_values', 'immutability_probes',
-            'caller_dict_checks', 'metamorphic/idempotent', 'metamorphic/remove_required', 'metamorphic/wrong_type', 'nested_ns_levels', 'exposed_specs', 'legacy_validators']
+            'caller_dict_checks', 'metamorphic/idempotent', 'metamorphic/remove_required', 'metamorphic/wrong_type', 'nested_ns_levels', 'exposed_specs', 'legacy_validators', 'aliased_namespace_values', 'mapping_leaf_values']
 BOUNDS = {'quick': '250 specs (depth<=2) x 40 inputs', 'thorough': '4000 specs (depth<=3) x 60 inputs'}
 UN = '<absent>'
 
@@ -46,7 +46,7 @@ class B(A):
 
 generated.register(A, 'A')
 generated.register(B, 'B')
-TYPES = {'int': int, 'str': str, 'A': A, 'B': B, 'intstr': (int, str)}
+TYPES = {'int': int, 'str': str, 'A': A, 'B': B, 'intstr': (int, str), 'dict': dict, 'OD': collections.OrderedDict}
 
 
 def v_not1(value, port):
@@ -86,7 +86,7 @@ def nsv_some(values, port):
 
 VALIDATORS = {'nsv_some': nsv_some, 'v_not1': v_not1, 'nsv_no_x': nsv_no_x, 'v_short': v_short, 'v_not1_old': v_not1_old, 'nsv_no_x_old': nsv_no_x_old}
 MODEL_VALIDATORS = {'nsv_some': nsv_some, 'v_not1': v_not1, 'nsv_no_x': nsv_no_x, 'v_short': v_short, 'v_not1_old': v_not1, 'nsv_no_x_old': nsv_no_x}
-CALLABLES = {'d7': d7, 'd_s': d_s}
+CALLABLES = {'d7': d7, 'd_s': d_s, 'cls_A': A, 'cls_list': list}  # (a class is a callable default like any other: evaluated per construction)
 NAMES = ['a', 'ab', 'n', 'm', 'x']
 
 
@@ -104,6 +104,11 @@ def _good_value(rng, vt):
         return '@B'
     if vt == 'intstr':
         return rng.choice([2, 't'])
+    if vt == 'dict':
+        # a mapping that is the VALUE of a leaf port (a plain dict, or a dict subclass)
+        return rng.choice([{'@LEAF': True, 'p': 1}, {'@LEAF': True, '@OD': True, 'p': 1, 'q': 's'}, {'@LEAF': True}])
+    if vt == 'OD':
+        return rng.choice([{'@LEAF': True, '@OD': True, 'p': 1}, {'@LEAF': True, '@OD': True}])
     return rng.choice([1, 's', None, '@A', 0])
 
 
@@ -118,6 +123,10 @@ def _bad_value(rng, vt):
         return rng.choice(['@A', 1])
     if vt == 'intstr':
         return rng.choice([None, '@A'])
+    if vt == 'dict':
+        return rng.choice([1, 's', None])
+    if vt == 'OD':
+        return rng.choice([{'@LEAF': True, 'p': 1}, 1])  # (a plain dict is not an OrderedDict)
     return None
 
 
@@ -127,11 +136,15 @@ def rand_port(rng):
     if r < 0.3:
         attrs['required'] = False
     vt = rng.choice([None, None, 'int', 'str', 'A', 'B', 'intstr'])
+    if rng.random() < 0.08:
+        vt = rng.choice(['dict', 'OD'])
     if vt:
         attrs['valid_type'] = vt
     if rng.random() < 0.35:
         if rng.random() < 0.3 and vt in (None, 'int', 'intstr', 'str'):
             attrs['default'] = ['call', 'd_s' if vt == 'str' else 'd7']
+        elif rng.random() < 0.3 and vt in (None, 'A'):
+            attrs['default'] = ['call', 'cls_A' if vt == 'A' or rng.random() < 0.5 else 'cls_list']
         else:
             val = _good_value(rng, vt)
             if val != 1:
@@ -202,6 +215,12 @@ def rand_inputs(rng, ns):
                 out[name] = {}
             else:
                 out[name] = rng.choice([5, None, 's', '@A', '', [], 0])
+    # one and the same dictionary object handed over for two namespaces (e.g. common options built once by the caller)
+    nss = [n for n, d in children.items() if d[0] == 'ns' and isinstance(out.get(n), dict) and not any(k.startswith('@') for k in out[n])]
+    if len(nss) >= 2 and rng.random() < 0.5:
+        if rng.random() < 0.75:
+            out[nss[0]] = {}  # (an empty one: each namespace fills in its own defaults)
+        out[nss[1]] = {'@SAME': nss[0]}
     # undeclared keys
     r = rng.random()
     if r < 0.35:
@@ -225,7 +244,10 @@ def _real(value):
     if value == '@B':
         return B()
     if isinstance(value, dict):
-        out = {k: _real(v) for k, v in value.items() if k not in ('@OD', '@UD', '@FD')}
+        out = {k: _real(v) for k, v in value.items() if k not in ('@OD', '@UD', '@FD', '@LEAF')}
+        for k, v in value.items():
+            if isinstance(v, dict) and '@SAME' in v:
+                out[k] = out[v['@SAME']]  # the very same object
         if value.get('@OD'):
             return collections.OrderedDict(out)  # a dict subclass given by the caller
         if value.get('@UD'):
@@ -475,7 +497,7 @@ def run_case(case):
     V = judges.V
     spec, inputs_desc = case['spec'], case['inputs']
     cls = spec_class(spec, case['si'], exposed=bool(case.get('exposed')))
-    obs = {'exposed_specs': int(bool(case.get('exposed'))), 'legacy_validators': int('_old' in json.dumps(spec)), 'constructed': 0, 'accepted': 0, 'rejected': 0, 'defaults_populated': 0, 'callable_defaults': 0, 'populate_defaults_false': 0,
+    obs = {'aliased_namespace_values': int('@SAME' in json.dumps(inputs_desc)), 'exposed_specs': int(bool(case.get('exposed'))), 'legacy_validators': int('_old' in json.dumps(spec)), 'constructed': 0, 'accepted': 0, 'rejected': 0, 'defaults_populated': 0, 'callable_defaults': 0, 'populate_defaults_false': 0,
            'dynamic_values': 0, 'immutability_probes': 0, 'caller_dict_checks': 0, 'metamorphic': {}, 'nested_ns_levels': 0, 'spec_errors': 0}
     if isinstance(cls, tuple):
         obs['spec_errors'] = 1
@@ -513,6 +535,13 @@ def run_case(case):
             got = plain(proc.inputs)
             if got != expected:
                 viol.append(V('inputs-differ', 'inputs-differ', 'inputs %r, expected %r (spec %s, given %r)' % (got, expected, shape, inputs_desc)))
+            # a mapping given as the VALUE of a leaf port arrives as the object it is (same type), not as a namespace-like copy
+            for name, d in spec[2].items():
+                if d[0] == 'port' and isinstance(inputs, dict) and isinstance(inputs.get(name), dict) and name in proc.inputs:
+                    obs['mapping_leaf_values'] = obs.get('mapping_leaf_values', 0) + 1
+                    if type(proc.inputs[name]) is not type(inputs[name]):
+                        viol.append(V('leaf-value-type-changed', 'leaf-value-type-changed:%s->%s' % (type(inputs[name]).__name__, type(proc.inputs[name]).__name__),
+                                      'the value given for port %s is a %s, inputs holds a %s' % (name, type(inputs[name]).__name__, type(proc.inputs[name]).__name__)))
             # raw_inputs exactly as given
             raw = proc.raw_inputs
             if (raw is None) != (inputs is None) or (raw is not None and plain(raw) != given_copy):
@@ -557,7 +586,10 @@ def run_case(case):
                 plain(proc.raw_inputs),)))
         del inputs['zz_added_later']
     # metamorphic relations (model independent)
-    if proc is not None and verdict == 'accept':
+    has_od_port = '"valid_type": "OD"' in json.dumps(spec)  # (plain() turns an OrderedDict leaf value into a dict, which such a port refuses)
+    if proc is not None and verdict == 'accept' and has_od_port:
+        obs['metamorphic']['skipped_for_typed_mapping_leaf'] = 1
+    if proc is not None and verdict == 'accept' and not has_od_port:
         again, exc2 = _construct(cls, plain(proc.inputs))
         obs['metamorphic']['idempotent'] = 1
         if again is None or plain(again.inputs) != plain(proc.inputs):
